@@ -51,10 +51,13 @@ MANIFEST = {
             'pair and the terminal relation is that line.  The model is tied to the working tree on every run by evaluating it inside Coq on the '
             'circuits the real code analysed.',
     'note': 'Trusted: Coq kernel/vm_compute; tools/tr_stamps.py; spec coq/theory/Circuit.v; hand models props/C04model.v (probes; a killed V source is a 0 V '
-            'source instead of a wire, _add_ground = index -1) and props/C01model.v validated by correspondence; witnesses and the inverse certificate are '
-            'computed by the harness (exact rationals) and CHECKED in Coq; sympy linear solve, node merging and the Superposition/Laplace bookkeeping of '
-            'Lcapy are modelled as oracles.  Open findings: impedance/admittance/thevenin/norton/transfer keep initial conditions (DESIGN 6-F2); '
-            'ParSer.Voc/Isc ignore initial conditions (6-F9, belongs to C07).',
+            'source instead of a wire; _add_ground = index -1, props/C04ground.v) and props/C01model.v validated by correspondence; witnesses and the '
+            'left-inverse certificate are computed by the harness (exact rationals) and CHECKED in Coq (cert_determined turns the certificate into the '
+            'well-posedness hypothesis); sympy linear solve, node merging and the Superposition/Laplace bookkeeping of Lcapy are modelled as oracles; '
+            'models whose source was passed through a numerical inverse Laplace transform (floating-point coefficients) are not compared.  Findings '
+            '(known_findings.json): impedance/admittance/thevenin/norton/transfer keep initial conditions (DESIGN 6-F2); OnePort.thevenin/norton of a '
+            'source-free reactive network evaluate the immittance at s = 0; ParSer.Voc/Isc ignored initial conditions (6-F9) and the ladder shortcut '
+            'of transfer() on a shorted port (both fixed in /repo during the build).',
     'technique': 'Coq proof (linear algebra over an abstract field, induction over netlists and trees) + in-Coq certificate checking of the probes against the MNA model regenerated from source + load-invariance search oracle',
 }
 
@@ -248,6 +251,34 @@ def tree_has_src(t):
     if t[0] in ('ser', 'par'):
         return any(tree_has_src(c) for c in t[1])
     return t[0] in ('V', 'I')
+
+
+def tree_ic_variants(t):
+    """the tree with every subset of its initial conditions dropped (C(c, v0) -> C(c), L(l, i0) -> L(l))"""
+    import itertools
+    paths = []
+
+    def walk(t, path):
+        if t[0] in ('ser', 'par'):
+            for i, c in enumerate(t[1]):
+                walk(c, path + (i,))
+        elif t[0] in ('C', 'L') and t[2] is not None:
+            paths.append(path)
+    walk(t, ())
+
+    def drop(t, path, sel):
+        if t[0] in ('ser', 'par'):
+            return [t[0], [drop(c, path + (i,), sel) for i, c in enumerate(t[1])]]
+        if path in sel:
+            return [t[0], t[1], None]
+        return t
+    out = []
+    if len(paths) > 8:
+        paths = paths[:8]
+    for k in range(1, len(paths) + 1):
+        for sel in itertools.combinations(paths, k):
+            out.append(drop(t, (), set(sel)))
+    return out
 
 
 def tree_has_ic(t):
@@ -619,7 +650,7 @@ def build_net_items(ci, case, wr, tr, res):
             if e_.get('_owner') == 'V' and a2 is not None and b2 is not None and len(e_['nidx']) >= 2 and set(e_['nidx'][:2]) == {a2, b2}:
                 vs_out = True
         # transfer() tries a ladder-network shortcut on kill() when the netlist has at least 6 elements
-        info['ladder_fp'] = (len(case['netlist']) >= 6) and (vs_in or vs_out)
+        info['ladder_fp'] = (len(case['netlist']) >= 6) and (vs_in or vs_out or (a2 is not None and a2 == b2))
         if a2 is not None and b2 is not None and a2 == b2:
             res.count('transfer_skipped_output_nodes_merged')
         elif a2 is not None and b2 is not None and not across and x_y is not None:
@@ -652,7 +683,7 @@ def build_tree_items(ci, case, wr, res):
     th, no = tree_eval(t, s0, dc)
     info = {'th': th, 'no': no, 'has_ic': tree_has_ic(t)}
     if info['has_ic']:
-        info['bth'], info['bno'] = tree_eval(t, s0, dc, buggy=True)
+        info['ic_variants'] = tree_ic_variants(t)
     if not dc:
         info['dth'], info['dno'] = tree_eval(t, s0, True, ext=True)     # C open, L short: the s -> 0 model
     # the harness evaluation of the tree is only used to decide WHICH comparisons make sense; the verdict is Coq's
@@ -986,7 +1017,8 @@ def run(tier='quick', replay=None):
                         key = keys[rel[-1]]
                     if nm == 'transfer_route' and info.get('ladder_fp') and 'H_direct' not in keys:
                         # the two public routes disagree, the documented one agrees with the model (or is not modelled: source
-                        # across the input), >= 6 elements and an independent V source across the input or output port
+                        # across the input), >= 6 elements and an independent V source across the input or output port, or the
+                        # output port shorted by a wire
                         key = 'NetlistOpsMixin.transfer:ladder-shortcut'
                         if 'H' in keys:
                             keys['H'] = key
@@ -1000,18 +1032,21 @@ def run(tier='quick', replay=None):
                     key = 'correspondence:oneport.%s' % pb
                     v = fr(api.get(pb))
                     if has_ic and pb in ('Voc', 'thVoc', 'Isc', 'noIsc', 'thZ', 'noY'):
-                        bth, bno = info.get('bth'), info.get('bno')
-                        exp = None
-                        if pb in ('Voc', 'thVoc') and bth is not None:
-                            exp = bth[0]
-                        if pb in ('Isc', 'noIsc') and bno is not None:
-                            exp = bno[0]
-                        if exp is not None and v is not None and v * sc == exp:
-                            key = 'OnePort.%s:ics-ignored' % {'Voc': 'Voc', 'Isc': 'Isc', 'thVoc': 'thevenin', 'noIsc': 'norton'}[pb]
-                        if pb in ('thZ', 'noY') and (('thVoc', 'main') in failed or ('noIsc', 'main') in failed or
-                                                       ('Voc', 'main') in failed or ('Isc', 'main') in failed):
-                            # thevenin()/norton() take the dc branch (Z.subs(0)) when the ignored initial condition makes Voc/Isc vanish
-                            key = 'OnePort.%s:ics-ignored' % ('thevenin' if pb == 'thZ' else 'norton')
+                        # ParSer.Voc / ParSer.Isc drop the initial conditions of sub-networks without independent source (which
+                        # ones depends on how simplify() regroups the tree): the value is that of the tree with SOME of its
+                        # initial conditions set to zero
+                        if v is not None and pb in ('Voc', 'thVoc', 'Isc', 'noIsc'):
+                            for tv in info.get('ic_variants', []):
+                                vth, vno = tree_eval(tv, Fraction(case['s0']), case['profile'] == 'dc')
+                                exp = (vth[0] if vth else None) if pb in ('Voc', 'thVoc') else (vno[0] if vno else None)
+                                if exp is not None and v * sc == exp:
+                                    key = 'OnePort.%s:ics-ignored' % {'Voc': 'Voc', 'Isc': 'Isc', 'thVoc': 'thevenin', 'noIsc': 'norton'}[pb]
+                                    break
+                        if pb == 'thZ' and v is not None and fr(api.get('thVoc')) == 0 and info.get('dth') and v == info['dth'][1]:
+                            # thevenin() takes the dc branch (Z.subs(0)) because the ignored initial conditions make Voc vanish
+                            key = 'OnePort.thevenin:ics-ignored'
+                        if pb == 'noY' and v is not None and fr(api.get('noIsc')) == 0 and info.get('dno') and v == info['dno'][1]:
+                            key = 'OnePort.norton:ics-ignored'
                     # OnePort.thevenin()/norton(): a vanishing Voc / Isc "is_dc", so the immittance is evaluated at s = 0
                     if pb == 'thZ' and th_ is not None and th_[0] == 0 and info.get('dth') and v is not None and v == info['dth'][1]:
                         key = 'OnePort.thevenin:zero-voc-dc-branch'
